@@ -11,7 +11,8 @@ import common
 import container as C
 from sx import Sym
 
-RULE = ("pairs (a, b) of valid blocks of one type with b in {a itself, a second object built from the same content, "
+RULE = ("[plus: two equal blocks compared, one then edited in place through public attributes, compared again, and compared with a block rebuilt from its values] "
+        "pairs (a, b) of valid blocks of one type with b in {a itself, a second object built from the same content, "
         "decode(encode(a)), a with exactly one change (a header scalar, the format/flag, a label, a channel number, one sample "
         "moved far beyond float tolerance, a gap turned into a sample or back, a link), one item appended, one item removed, the "
         "same items in another order (with their channels, without them, or the channels alone)}, for "
@@ -312,7 +313,48 @@ def run(ctx):
             continue
         if (m == 1) != expect:
             ctx.diff("blk.eq", f"{kind}: model eq says {m == 1}, abstract contents are {'equal' if expect else 'different'} ({what})", rp)
+    compared_then_edited(ctx, ctx.n(300, 8000))
     files(ctx)
+
+
+def compared_then_edited(ctx, n):
+    """two equal blocks are compared (and printed, sized, encoded) and THEN one of them is edited in place through its public
+    attributes: the next comparison must see the edit, and the edited block must equal a block built afresh from its values"""
+    import blockrun as B
+    rng = ctx.rng
+    for i in range(n):
+        kind = A.KINDS[i % len(A.KINDS)]
+        va = A.GEN[kind](rng)
+        try:
+            a, b = A.build(kind, va), A.build(kind, va)
+            first = (safe_eq(a, b), safe_eq(b, a))
+            repr(b), int(b.nBytes), A.encode(b)
+            B.FAR[0] = True        # sample edits far beyond float tolerance (C14: "any sample beyond float tolerance")
+            try:
+                what = B.apply_edit(kind, b, rng)
+            finally:
+                B.FAR[0] = False
+            if what is None or what.startswith("nudge") or what == "format":
+                continue           # one float32 step is inside "float tolerance"; the format code is not among the things C14 lists
+            vb = A.norm(A.absv(kind, b))
+            c = A.build(kind, vb)
+        except Exception as e:
+            ctx.diff("c14.edit", f"{kind}: cannot build/edit the pair: {type(e).__name__}: {str(e)[:80]}", dict(kind=kind, a=va))
+            continue
+        rp = dict(kind=kind, a=va, b=vb, how="compared, then edited in place: " + what)
+        expect = A.norm(va) == vb
+        ctx.case((kind, str(va)[:2000], "edited:" + what), nontrivial=True, tags=(kind, "compared-then-edited", "edit:" + what.split(" ")[0]))
+        if first != (True, True):
+            ctx.fail(f"{kind}: two blocks built from the same values compare {first}", rp, ident=f"{kind} equal content compares unequal (rebuilt)")
+            continue
+        got = (safe_eq(a, b), safe_eq(b, a))
+        if got != (expect, expect):
+            ctx.fail(f"{kind}: after '{what}' on one of two equal blocks (compared before), a == b / b == a give {got}, contents are {'equal' if expect else 'different'}", rp,
+                     ident=f"{kind} in-place edit not seen by ==" if not expect else f"{kind} equal content compares unequal (edited)")
+            continue
+        got2 = (safe_eq(b, c), safe_eq(c, b))
+        if got2 != (True, True):
+            ctx.fail(f"{kind}: a block edited in place ('{what}') compares {got2} to a block built afresh from its values", rp, ident=f"{kind} edited block != rebuilt block")
 
 
 def files(ctx):
